@@ -337,6 +337,35 @@ fn describe(s: &Subject, a: &Arrangement) -> String {
     )
 }
 
+fn many_files_run(n: usize, fault: Option<usize>, o: &str) -> Result<(bool, BTreeSet<(String, String)>), String> {
+    let order: Vec<usize> = match o {
+        "reversed" => (0..n).rev().collect(),
+        "rotated" => (0..n).map(|i| (i + n / 2) % n).collect(),
+        "even-first" => (0..n).filter(|i| i % 2 == 0).chain((0..n).filter(|i| i % 2 == 1)).collect(),
+        _ => (0..n).collect(),
+    };
+    let r = crate::util::catch(|| {
+        let mut p = FileBackedProject::new();
+        for i in 0..n {
+            // file i declares T{i} as an alias of T{i+1}; the last one is an enumeration
+            let mut t = if i + 1 < n { format!("TYPE T{} : T{} ; END_TYPE\n", i, i + 1) } else { format!("TYPE T{} : ( A , B ) ; END_TYPE\n", i) };
+            if fault == Some(i) {
+                t.push_str(&format!("TYPE Bad{} : ( X , X ) ; END_TYPE\n", i));
+            }
+            p.change_text_document(&front::fid(&format!("/w/f{:03}.st", i)), t);
+        }
+        ironplcc::verif::set_order(Some(order.clone()));
+        let r = p.semantic();
+        ironplcc::verif::set_order(None);
+        r
+    });
+    match r {
+        Err(p) => Err(format!("panic at {}", p.loc)),
+        Ok(Ok(())) => Ok((true, BTreeSet::new())),
+        Ok(Err(ds)) => Ok((false, ds.iter().map(|d| (d.code.clone(), d.primary.file_id.to_string())).collect())),
+    }
+}
+
 pub fn run(ctx: &mut Ctx) {
     let thorough = ctx.tier.thorough();
     let subs = subjects_for(thorough);
@@ -434,6 +463,46 @@ pub fn run(ctx: &mut Ctx) {
     ctx.states = total / 2;
     ctx.extra.insert("sets_whose_verdict_differs_from_their_name (order independence is still checked on them)".into(), json!(unexpected));
 
+    // many files: a chain of N declarations, one per file, N around the sizes at which fixed-width tables end;
+    // valid, and with one fault in the first / middle / last file; file orders: identity, reversed, rotated,
+    // even files first. The verdict (and for the faulty sets the code and the faulty file) must not move.
+    let sizes = [8usize, 9, 16, 17, 32, 33, 64, 65, 128, 129, 256, 257];
+    let mut many_jobs: Vec<(usize, Option<usize>, &'static str)> = vec![]; // (n, faulty file, order name)
+    for &n in &sizes {
+        for fault in [None, Some(0), Some(n / 2), Some(n - 1)] {
+            for o in ["identity", "reversed", "rotated", "even-first"] {
+                many_jobs.push((n, fault, o));
+            }
+        }
+    }
+    let many_res: Vec<(usize, Option<usize>, &'static str, Result<(bool, BTreeSet<(String, String)>), String>)> = many_jobs
+        .par_iter()
+        .map(|(n, fault, o)| (*n, *fault, *o, many_files_run(*n, *fault, o)))
+        .collect();
+    for (n, fault, o, res) in &many_res {
+        ctx.evaluations += 1;
+        ctx.transitions += 1;
+        ctx.distinct(&format!("many|{}|{:?}|{}", n, fault, o));
+        let fname = match fault {
+            None => "valid".to_string(),
+            Some(0) => "fault-in-first-file".to_string(),
+            Some(k) if *k == n - 1 => "fault-in-last-file".to_string(),
+            Some(_) => "fault-in-middle-file".to_string(),
+        };
+        let expected: Result<(bool, BTreeSet<(String, String)>), String> = match fault {
+            None => Ok((true, BTreeSet::new())),
+            Some(k) => Ok((false, [("P0005".to_string(), format!("/w/f{:03}.st", k))].into_iter().collect())),
+        };
+        if *res != expected {
+            ctx.fail(
+                &format!("many-files/{}#{}", fname, match res { Err(_) => "crash", Ok((true, _)) => "reported-ok", Ok(_) => "wrong-diagnostics" }),
+                &format!("{} files (alias chain, one declaration per file), {}, file order {}: expected {:?}, observed {:?}", n, fname, o, expected, res),
+                json!({"mode":"many-files","n":n,"fault":fault,"order":o}),
+            );
+        }
+    }
+    ctx.bounds.insert("many_files".into(), json!("alias chain over N files, N in 8,9,16,17,32,33,64,65,128,129,256,257 x {valid, fault in first/middle/last file} x 4 file orders"));
+
     // conformance of the seam: the real binary (random hash order) x N per multi-file set must give a result that one of the enumerated file orders gives
     let reps = if thorough { 20 } else { 10 };
     let scratch = Scratch::new("c06");
@@ -494,6 +563,16 @@ pub fn run(ctx: &mut Ctx) {
 }
 
 pub fn replay(case: &Value) -> Result<String, String> {
+    if case["mode"] == json!("many-files") {
+        let n = case["n"].as_u64().ok_or("n")? as usize;
+        let fault = case["fault"].as_u64().map(|x| x as usize);
+        let r = many_files_run(n, fault, case["order"].as_str().unwrap_or("identity"));
+        let expected = match fault {
+            None => Ok((true, BTreeSet::new())),
+            Some(k) => Ok((false, [("P0005".to_string(), format!("/w/f{:03}.st", k))].into_iter().collect())),
+        };
+        return if r == expected { Ok(format!("as expected: {:?}", r)) } else { Err(format!("expected {:?}, observed {:?}", expected, r)) };
+    }
     let name = case["subject"].as_str().ok_or("subject")?;
     let n = case["perm"].as_array().map(|a| a.len()).unwrap_or(0);
     let mut subs = subjects_for(false);
